@@ -185,11 +185,20 @@ def run(ck):
         with xr.quiet():
             m2.load_state_dict(sd3, torch.tensor(X))
         o2 = outputs(m2)
-        for name, oo in (('loaded', o1), ('load of a load', o2)):
+        # the SAME state dict object loaded into a second fresh model (replicas): loading must not consume the dict
+        m3 = xr.xRFM(**copy.deepcopy(ctor))
+        try:
+            with xr.quiet():
+                m3.load_state_dict(sd2, torch.tensor(X))
+            o3 = outputs(m3); o1b = outputs(m1)
+        except Exception as e:
+            ck.violation(f'loading the same state dict into a second fresh model raised {e!r} on {desc}', dict(desc, error=repr(e)), key=json.dumps(dict(site='roundtrip', what='second-load-raise')))
+            o3 = o1b = None
+        for name, oo in (('loaded', o1), ('load of a load', o2)) + ((('second model loaded from the same dict', o3), ('first loaded model after the second load', o1b)) if o3 is not None else ()):
             for a, b, what in zip(before, oo, ('predict', 'predict_proba')):
                 if a.shape != b.shape or not np.array_equal(a, b):
                     diff = float(np.max(np.abs(a.astype(float) - b.astype(float)))) if a.shape == b.shape else 'shape'
                     ck.violation(f'{what} of the {name} model differs from the source model (max diff {diff}); source split_temperature={src.split_temperature}, '
-                                 f'{name} split_temperature={m1.split_temperature if name == "loaded" else m2.split_temperature} on {desc}',
+                                 f'{name} split_temperature={m2.split_temperature if name == "load of a load" else m1.split_temperature} on {desc}',
                                  dict(desc, what=what, which=name, maxdiff=diff, src_T=src.split_temperature),
                                  key=json.dumps(dict(site='roundtrip', tuned_T=(src.split_temperature is not None and tuned), what=what)))
